@@ -5,7 +5,7 @@
     (step.c scanning primitives), over Map/MapModel.v (C10) and Xlat/Step.v (C02). *)
 From Coq Require Import NArith ZArith List Bool Lia.
 From KdV Require Import Base.Wrap64 Map.MapModel Map.MapSpec Xlat.Step Xlat.ArchSpec
-  Sys.LayoutModel Sys.LayoutSpec Sys.LayoutProofs Sys.LayoutArchModel Sys.LayoutArchProofs Sys.ScanModel Sys.ScanProofs Sys.LinuxX86Model Sys.LinuxX86Proofs Sys.LinuxX86Region Sys.LinuxRvA64Model Sys.LinuxRvA64Proofs Xlat.WalkProofs Xlat.FmtX86 Xlat.FmtA64.
+  Sys.LayoutModel Sys.LayoutSpec Sys.LayoutProofs Sys.LayoutArchModel Sys.LayoutArchProofs Sys.ScanModel Sys.ScanProofs Sys.LinuxX86Model Sys.LinuxX86Proofs Sys.LinuxX86Region Sys.LinuxRvA64Model Sys.LinuxRvA64Proofs Sys.LinuxRvA64Region Xlat.FmtRiscvPfn Xlat.WalkProofs Xlat.FmtX86 Xlat.FmtA64.
 Import ListNotations.
 Local Open Scope N_scope.
 
@@ -400,6 +400,75 @@ Theorem C08_aarch64_linear_map_checked : forall img v s ras root mask pf tgt vb 
     lin d first = p1 /\ lin d last = p2.
 Proof. exact aarch64_linear_map_checked. Qed.
 Print Assumptions C08_aarch64_linear_map_checked.
+
+(** riscv64 and aarch64 "find the whole region", in the style of
+    C08_x86_64_linux_finds_region / _agree ([rv_walk] / [a64_walk] = the
+    architectural walk of the kernel page table, Sys/LinuxRvA64Region.v).
+
+    riscv64: the offset of the whole region is taken from the first mapped
+    address at or above PAGE_OFFSET, so the statement needs — explicitly — that
+    NOTHING is mapped between PAGE_OFFSET and the linear base [base]; further
+    that [base, top_] is one run of whole pages mapped linearly, the page after
+    it is unmapped, and what is mapped behind it (the kernel image) does not
+    continue with the same offset.  Then a successful [add_linux_linear_map]
+    installs exactly [base, top_] with the offset the page tables give [base],
+    [base] translates (KV -> KPHYS) with that offset, and the direct method sends
+    every address of the run where the page tables send it. *)
+Theorem C08_riscv64_linux_agree : forall img hl_fuel s ras root mask pf tgt po base top_ p1 s',
+  pgt_meth s = {| m_kind := KPgt ras root mask pf; m_target := tgt |} ->
+  pte_format pf = PTE_RISCV64 -> riscv64_form (fieldsz pf) ->
+  (forall a x, rd img s a x <> RdErr OK) ->
+  wf_sys s ->
+  num_PAGE_OFFSET img = CbOk po -> po < 2^64 ->
+  let walk := rv_walk img s ras root mask pf tgt in
+  let Mp a := exists p, walk a = (OK, Some (tgt, p)) in
+  let Up a := walk a = (NOTPRESENT, None) in
+  let pd a := a / 2^12 * 2^12 in
+  pd po <= base -> (forall a, pd po <= a -> a < base -> Up a) ->
+  pd base = base -> pd (top_ + 1) = top_ + 1 -> base <= top_ -> top_ < MAXA ->
+  (top_ + 1) / 2^(total (fieldsz pf)) = base / 2^(total (fieldsz pf)) ->
+  (forall a, base <= a -> a <= top_ -> Mp a) -> Up (top_ + 1) ->
+  walk base = (OK, Some (tgt, p1)) ->
+  (forall a p, base <= a -> a <= top_ -> walk a = (OK, Some (tgt, p)) -> wsub p a = wsub p1 base) ->
+  ((forall a, top_ < a -> a <= MAXA -> a / 2^(total (fieldsz pf)) = base / 2^(total (fieldsz pf)) -> Up a) \/
+   (exists n2, top_ < n2 /\ Mp n2 /\ (forall a, top_ < a -> a < n2 -> Up a) /\
+               forall p, kv2kphys img s n2 = (OK, p) -> wsub p n2 <> wsub p1 base)) ->
+  rv_add_linux_linear_map img hl_fuel s = (O_ST OK, s') ->
+  install_linear s base top_ (wsub p1 base) (wadd base (wsub p1 base)) (wadd top_ (wsub p1 base)) = (O_ST OK, s') /\
+  get_meth s' METH_DIRECT = mk_linear KPHYSADDR (s64 (wsub p1 base)) /\
+  (exists p, kv2kphys img s base = (OK, p) /\ wsub p base = wsub p1 base) /\
+  (forall a p, base <= a -> a <= top_ -> walk a = (OK, Some (tgt, p)) -> lin (s64 (wsub p1 base)) a = p).
+Proof. exact riscv64_linux_agree. Qed.
+Print Assumptions C08_riscv64_linux_agree.
+
+(** aarch64: in the half of the kernel range that [linux_page_offset] selects
+    exactly one run [base, top_] is mapped, linearly.  Then the region installed
+    is exactly [base, top_] (reverse region [phys(base), phys(top_)]), and the
+    direct method agrees with the page tables on every address of the run *)
+Theorem C08_aarch64_linux_agree : forall img v s ras root mask pf tgt vb po base top_ p1 s',
+  pgt_meth s = {| m_kind := KPgt ras root mask pf; m_target := tgt |} ->
+  pte_format pf = a64_fmt v -> a64_form v (fieldsz pf) ->
+  (forall a x, rd img s a x <> RdErr OK) ->
+  wf_sys s -> vb <= 64 ->
+  a64_linux_page_offset img vb = (OK, po) ->
+  let last0 := N.lor po (ADDR_MASK (vb - 1)) in
+  po < 2^64 -> last0 < 2^64 ->
+  let walk := a64_walk v img s ras root mask pf tgt in
+  let Mp a := exists p, walk a = (OK, Some (tgt, p)) in
+  let Up a := walk a = (NOTPRESENT, None) in
+  page_down pf po <= base -> (forall a, page_down pf po <= a -> a < base -> Up a) ->
+  base <= top_ -> top_ <= page_up pf last0 -> (forall a, top_ < a -> a <= page_up pf last0 -> Up a) ->
+  (forall a, base <= a -> a <= top_ -> Mp a) ->
+  walk base = (OK, Some (tgt, p1)) ->
+  (forall a p, base <= a -> a <= top_ -> walk a = (OK, Some (tgt, p)) -> wsub p a = wsub p1 base) ->
+  a64_add_linux_linear_map img vb s = (O_ST OK, s') ->
+  exists p2,
+    walk top_ = (OK, Some (tgt, p2)) /\
+    install_linear s base top_ (wsub p1 base) p1 p2 = (O_ST OK, s') /\
+    get_meth s' METH_DIRECT = mk_linear KPHYSADDR (s64 (wsub p1 base)) /\
+    (forall a p, base <= a -> a <= top_ -> walk a = (OK, Some (tgt, p)) -> lin (s64 (wsub p1 base)) a = p).
+Proof. exact aarch64_linux_agree. Qed.
+Print Assumptions C08_aarch64_linux_agree.
 
 (** the hypotheses are satisfiable: the x86-64 Linux 2.6.31 direct mapping *)
 Example C08_nonvacuous_layout :
